@@ -660,6 +660,11 @@ func runBatch(run *ev.Run, dir string, w int, cases []kase) {
 				rest = append(rest, c)
 			}
 		}
+		if hung >= 0 && !stillHangsAlone(run, dir, w, byID[hung]) {
+			// a cycle that ends when its case runs alone with a generous margin was slow (loaded machine), not hung
+			run.Count("suspected_hangs_not_reproduced_alone")
+			hung = -1
+		}
 		if hung >= 0 {
 			c := byID[hung]
 			run.Count("evaluations")
@@ -678,6 +683,53 @@ func runBatch(run *ev.Run, dir string, w int, cases []kase) {
 			return
 		}
 		cases = rest
+	}
+}
+
+var (
+	confirmMu      sync.Mutex
+	hangsConfirmed int
+)
+
+// stillHangsAlone re-runs one suspected hang in a child of its own with a 60 s margin: the 10 s margin of the
+// batch is a wall-clock bound and 16 batches share the machine with whatever else runs on it. Until two hangs
+// have been confirmed this way every suspect is re-run; after that the machine is evidently not the cause.
+func stillHangsAlone(run *ev.Run, dir string, w int, c kase) bool {
+	confirmMu.Lock()
+	defer confirmMu.Unlock()
+	if hangsConfirmed >= 2 {
+		return true
+	}
+	in := filepath.Join(dir, fmt.Sprintf("hostile-alone-%d-%d.json", w, c.ID))
+	prog := filepath.Join(dir, fmt.Sprintf("hostile-alone-%d-%d.progress", w, c.ID))
+	b, _ := json.Marshal([]kase{c})
+	_ = os.WriteFile(in, b, 0o644)
+	ctx, cancel := context.WithCancel(context.Background())
+	defer cancel()
+	cmd := exec.CommandContext(ctx, os.Getenv("VERIF_BIN_C19CHILD"), in, prog)
+	if err := cmd.Start(); err != nil {
+		return true
+	}
+	done := make(chan error, 1)
+	go func() { done <- cmd.Wait() }()
+	limit := time.After(time.Duration(c.DeadlineMS)*time.Millisecond + 60*time.Second)
+	for {
+		select {
+		case <-done:
+			_, _, results := progress(prog)
+			if _, ok := results[c.ID]; ok {
+				return false
+			}
+			hangsConfirmed++ // it died instead of finishing: not a slow machine either
+			return true
+		case <-limit:
+			cancel()
+			<-done
+			hangsConfirmed++
+			run.Count("hangs_confirmed_alone_with_60s_margin")
+			return true
+		case <-time.After(200 * time.Millisecond):
+		}
 	}
 }
 
